@@ -50,3 +50,73 @@ package benchproc
 //@     invariant 0 <= idx() <= len(parts) && unchanged()
 //@     invariant forall m int :: 0 <= m < idx() ==> !partHasPrefix(parts[m], prefix)
 //@     decreases len(parts) - idx()
+
+// ---------------------------------------------------------------------------
+// Key order (C09)
+
+// fval: the value of flattened field f in a (trimmed) value vector; missing = "".
+//@ pure func fval(v []string, f *Field) string = f.idx < len(v) ? v[f.idx] : ""
+
+// before(f, x, y): x sorts before y under field f's comparator, with the
+// bytewise fallback when the comparator calls different strings equal.
+//@ pure func before(f *Field, x string, y string) bool = apply(f.cmp, x, y) != 0 ? apply(f.cmp, x, y) < 0 : x < y
+
+// lessFrom: lexicographic comparison over flattened fields i, i+1, ….
+//@ rec func lessFrom(flat []*Field, a []string, b []string, i int) bool = (i < 0 || i >= len(flat)) ? false :
+//@     (fval(a, flat[i]) != fval(b, flat[i]) ? before(flat[i], fval(a, flat[i]), fval(b, flat[i])) : lessFrom(flat, a, b, i+1))
+
+//@ pure func flatOK(flat []*Field) bool = forall i int :: 0 <= i < len(flat) ==> flat[i] != nil && flat[i].idx >= 0
+
+//@ func less(flat []*Field, a, b []string) (r bool)
+//@   props C09
+//@   requires flatOK(flat)
+//@   ensures r == lessFrom(flat, a, b, 0)
+//@   loop 1:
+//@     invariant 0 <= idx() <= len(flat) && lessFrom(flat, a, b, 0) == lessFrom(flat, a, b, idx())
+//@     decreases len(flat) - idx()
+
+// cmpOK: every field's comparator is a total preorder on strings: reversing
+// the arguments reverses the sign, and <= is transitive.
+//@ pure func cmpOK(flat []*Field) bool = forall i int, x string, y string, z string :: 0 <= i < len(flat) ==>
+//@     ((apply(flat[i].cmp, x, y) < 0) <==> (apply(flat[i].cmp, y, x) > 0)) &&
+//@     ((apply(flat[i].cmp, x, y) == 0) <==> (apply(flat[i].cmp, y, x) == 0)) &&
+//@     (apply(flat[i].cmp, x, y) <= 0 && apply(flat[i].cmp, y, z) <= 0 ==> apply(flat[i].cmp, x, z) <= 0)
+
+// Property lemmas of C09, each proved by induction on the field index (the
+// recursive call is the induction hypothesis; the ghost functions are never
+// called at run time).  Together: less is a strict total order on keys whose
+// value vectors differ in some flattened field.
+
+//@ func verifC09Asym(flat []*Field, a, b []string, i int)
+//@   lemma
+//@   props C09
+//@   requires flatOK(flat) && cmpOK(flat) && 0 <= i
+//@   ensures lessFrom(flat, a, b, i) ==> !lessFrom(flat, b, a, i)
+func verifC09Asym(flat []*Field, a, b []string, i int) {
+	if i < len(flat) {
+		verifC09Asym(flat, a, b, i+1)
+	}
+}
+
+//@ func verifC09Trans(flat []*Field, a, b, c []string, i int)
+//@   lemma
+//@   props C09
+//@   requires flatOK(flat) && cmpOK(flat) && 0 <= i
+//@   ensures lessFrom(flat, a, b, i) && lessFrom(flat, b, c, i) ==> lessFrom(flat, a, c, i)
+func verifC09Trans(flat []*Field, a, b, c []string, i int) {
+	if i < len(flat) {
+		verifC09Trans(flat, a, b, c, i+1)
+	}
+}
+
+//@ func verifC09Total(flat []*Field, a, b []string, i int)
+//@   lemma
+//@   props C09
+//@   requires flatOK(flat) && cmpOK(flat) && 0 <= i
+//@   ensures (exists j int :: i <= j < len(flat) && fval(a, flat[j]) != fval(b, flat[j])) ==> lessFrom(flat, a, b, i) || lessFrom(flat, b, a, i)
+//@   ensures (forall j int :: i <= j < len(flat) ==> fval(a, flat[j]) == fval(b, flat[j])) ==> !lessFrom(flat, a, b, i)
+func verifC09Total(flat []*Field, a, b []string, i int) {
+	if i < len(flat) {
+		verifC09Total(flat, a, b, i+1)
+	}
+}
